@@ -12,6 +12,7 @@ _MODULES = {
     "C13": ("sim.profiles.lifecycle", "STOP"),
     "C16": ("sim.profiles.restapi", "PROFILE"),
     "C18": ("sim.profiles.lifecycle", "STATS"),
+    "C20": ("sim.profiles.logsim", "PROFILE"),
     "C19": ("sim.profiles.rib", "PROFILE"),
 }
 
